@@ -11,6 +11,8 @@ from harness.common import pmap
 
 def cfg_of(f):
     """the fixed configuration a format is used with inside a chain (Convert!CfgOf)"""
+    if f == "docstring_keep":
+        return {"style": "rest", "edd": True, "et": True}
     if f.startswith("docstring"):
         return {"style": f.split("_")[1] if "_" in f else "rest", "edd": True, "et": True}
     return {"fmt": f, "style": "rest", "edd": False, "ann": True, "kwonly": True}
@@ -28,7 +30,9 @@ def real_hop(f, ir):
         _, back = real.rt_sql(ir, f, style="rest", force_pk=True)
         return back
     if f.startswith("docstring"):
-        _, back = real.rt_docstring(ir, style=c["style"], edd=c["edd"], et=c["et"], parse_edd=False)
+        # hop "docstring": the sentence `Defaults to ..` is stripped from the description again when it is read back;
+        # hop variant KEEP_SENTENCE (the library's own defaults, emit_default_doc=True on parse): it stays in the description
+        _, back = real.rt_docstring(ir, style=c["style"], edd=c["edd"], et=c["et"], parse_edd=None if f == "docstring_keep" else False)
         # a docstring carries no name
         back.setdefault("name", ir.get("name"))
         if back.get("name") is None:
@@ -91,7 +95,7 @@ def run_behaviour(args):
                           for e in case["cur"]["params"]],
                "ret": {"present": False, "wild": False, "typs": [], "def": "absent", "doc": "absent"}}
         d = G.compare(states[-1], g.expected(exp, case["i"], salt))
-        d = [x for x in d if x[0] not in ("ret", "doc")]   # the chain model makes no claim about the prose
+        d = [x for x in d if x[0] not in ("ret", "doc", "param.doc")]   # the chain model makes no claim about the prose
         if d:
             res["drift"] = d[0][1]
     return res
